@@ -142,7 +142,7 @@ def check(ctx):
     units += [("hist", "str", f, METHOD, 2, "recycle") for f in (("name", "column") if ctx.thorough else ("name",))]
     if not ctx.thorough:
         units += [("hist", "str", "name", METHOD, 3, "fresh", p) for p in ("cell", "view", "replace", "cell2", "view2")]
-    units += [("gextra", f) for f in ("grid", "floats", "patterns", "applies", "tuplekeys", "calls")]
+    units += [("gextra", f) for f in ("grid", "floats", "patterns", "applies", "tuplekeys", "calls", "stateful", "numerics")]
     agg = hashseeds.run(ctx, "props.c13", units)
     agg.notes["bound"] = "rows<=4 (1 key) / <=3 (2 keys) quick; <=5 / <=4 / <=2 (3 keys) thorough"
     agg.notes["exhaustive"] = True
@@ -158,7 +158,8 @@ def replay(rec):
     agg = Agg()
     _fam = {"grid of composite keys": "grid", "float accumulation": "floats", "every two-group arrangement": "patterns",
             "several custom functions on one column": "applies", "one-shot iterable arguments": "applies",
-            "tuple-valued keys": "tuplekeys", "two calls on the same table": "calls"}
+            "tuple-valued keys": "tuplekeys", "two calls on the same table": "calls",
+            "custom functions that raise or count their calls": "stateful", "Fraction / Decimal / complex values": "numerics"}
     if case.get("family") in _fam:
         from mc import groupextra
         fam = _fam[case["family"]]
